@@ -21,6 +21,28 @@ from .. import c06_tr, c06_complete, c06_green, c06_oracle as O
 from ..core import TranslateError, clist, cnat, cnats, cints, cz, np_seed
 
 TOL = 1e-8
+# public callables of the anchor files and thin wrappers: covered before the audit / now / out of scope (with reason)
+API_COVERAGE = [
+    ['Basis.project / CellBasis.project (elements=, dtype=)', 'before', 'covered'],
+    ['FacetBasis.project (facets=, dtype=)', 'before', 'covered'],
+    ['AbstractBasis.get_dofs (facets / elements / tags / collections / skip)', 'before', 'covered'],
+    ['AbstractBasis.interpolate, split, split_bases', 'before', 'covered'],
+    ['CellBasis.with_elements, CellBasis.with_element', 'before', 'covered'],
+    ['AbstractBasis.complement_dofs (arrays, dict)', 'no', 'now: patch_api_variants'],
+    ['AbstractBasis.zeros / ones', 'no', 'now: patch_api_variants'],
+    ['CellBasis.boundary(facets)', 'no', 'now: patch_api_variants (Neumann basis)'],
+    ['FacetBasis.with_element', 'no', 'now: patch_api_variants (flux from a field)'],
+    ['utils.enforce / utils.penalize as the way to impose the boundary data of the patch test', 'no', 'now: patch_api_variants'],
+    ['utils.projection / utils.project (deprecated; callable, ndarray + basis_from, diff=, I=, expand=)', 'no', 'now: legacy_projection'],
+    ['helpers.div, d, transpose, identity (forms)', 'partly', 'now: elasticity_alt_form vs models.elasticity'],
+    ['models.poisson.laplace / vector_laplace / mass / unit_load', 'before', 'covered'],
+    ['models.elasticity.lame_parameters / plane_stress / linear_stress / linear_elasticity', 'before', 'covered'],
+    ['helpers.inner / dot / ddot / sym_grad / trace / eye / grad', 'before', 'covered'],
+    ['helpers.curl, dd, ddd, dddd, dddot, prod, mul, det, inv, cross, jump', 'no', 'out of scope: not used by the model problems of C06 (helper identities are C20, jump is C03)'],
+    ['CellBasis.refinterp / probes / interpolator / point_source, FacetBasis.trace', 'no', 'out of scope: point evaluation / traces (C14, C19), not part of the solve pipeline'],
+    ['AbstractBasis.to_indices, __repr__, plot, draw, __matmul__ / __mul__', 'no', 'out of scope: display / composite-basis construction (C19)'],
+    ['solver factories (solver_iter_pcg / cg / krylov, build_pc_*, solver_eigen_scipy_sym)', 'no', 'covered by C05 (check_solver_factories)'],
+]
 SUBSET_KEY = 'project:subset-argument-on-unrestricted-basis'
 
 IMPORTS = ('From Coq Require Import List ZArith Bool Arith.\n'
@@ -111,6 +133,7 @@ def run(ctx):
                        '{Poisson, reaction-diffusion, elasticity} x random Dirichlet/Neumann facet splits; projections on whole mesh, '
                        'cell subsets, boundary parts, curved second-order meshes. non-trivial = mixed boundary split or proper '
                        'subset; distinct by content')
+    ctx.extra['api_coverage'] = API_COVERAGE
     ctx.ensure_static()
     gen_ok = False
     # Green's identity on the reference cells: the largest generated file; compiled in the background while the
@@ -286,6 +309,34 @@ def _oracle(ctx):
                     stats['patch'] = max(stats['patch'], err if err < 1.0 else 0.0)
                     if not (err <= TOL):
                         ctx.fail(key, f'{info["what"]} (sequence {info["sequence"]}; error {err:.2e})', {'mesh': desc, 'info': info, 'error': err})
+            # the other public call forms that forward to the core path (API coverage audit)
+            if kind != 'wedge':
+                import skfem as _s
+                lower = {'line': _s.ElementLineP1, 'tri': _s.ElementTriP1, 'tet': _s.ElementTetP1, 'quad_affine': _s.ElementQuad1,
+                         'quad_general': _s.ElementQuad1, 'hex_affine': _s.ElementHex1, 'hex_general': _s.ElementHex1}[kind]
+                efs = O.elements_for(kind)
+                ef, deg = efs[int(rng.integers(0, len(efs)))]
+                elem = ef()
+                for what, fn in (('api-variants', lambda: O.patch_api_variants(m, elem, deg, rng)),
+                                 ('legacy-projection', lambda: O.legacy_projection(m, elem, lower(), rng))):
+                    key = f'patch:{what}:{kind}:{type(elem).__name__}'
+                    r = _guard(ctx, key, {'mesh': desc}, fn)
+                    if r is not None:
+                        err, info = r
+                        ctx.count((key, desc, info), nontrivial=True)
+                        stats['api_variants'] = max(stats.get('api_variants', 0.0), err)
+                        if not (err <= TOL):
+                            ctx.fail(key, f'{info["what"]}: deviation {err:.2e} ({info.get("errors")})', {'mesh': desc, 'info': info, 'error': err})
+                vefs = O.vector_elements_for(kind)
+                if vefs:
+                    selem = vefs[0][0]()
+                    key = f'patch:elasticity-alt-form:{kind}:{type(selem).__name__}'
+                    r = _guard(ctx, key, {'mesh': desc}, lambda: O.elasticity_alt_form(m, selem, 1, rng))
+                    if r is not None:
+                        err, info = r
+                        ctx.count((key, desc, info), nontrivial=True)
+                        if not (err <= TOL):
+                            ctx.fail(key, f'{info["what"]}: matrices differ by {err:.2e}', {'mesh': desc, 'info': info, 'error': err})
             # projections
             for ef, deg in O.elements_for(kind):
                 elem = ef()
